@@ -164,10 +164,12 @@ and gen_step depth simple : step =
 let gen_class_workflow () : workflow =
   counter := 0;
   let irq = ASpec (UIrq, O, true, None, []) in
+  (* timeout rules without steps: a firing starts nothing (the class has no timeout steps), ticks are part of the histories *)
+  let tmo () = if rnd 4 = 0 then (let (on, lim) = limit_of_name (Printf.sprintf "%ds" (1 + rnd 3)) in [Tmo (nat_of_int on, lim, [])]) else [] in
   let act () = let id = fresh () in
-    Act (id, None, (if rnd 3 = 0 then ASpec (UMsg, O, true, None, []) else irq), (if rnd 4 = 0 then rvars [3;4;7;8] 50 else []), (if rnd 3 = 0 then (let l = rnulls [1;3;4;5;8] 40 in if l = [] then [(nat_of_int 3, VNull)] else l) else []), None, [], [], []) in
+    Act (id, None, (if rnd 3 = 0 then ASpec (UMsg, O, true, None, []) else irq), (if rnd 4 = 0 then rvars [3;4;7;8] 50 else []), (if rnd 3 = 0 then (let l = rnulls [1;3;4;5;8] 40 in if l = [] then [(nat_of_int 3, VNull)] else l) else []), None, [], [], tmo ()) in
   let step () = let id = fresh () in
-    Step (id, None, None, (if rnd 4 = 0 then rvars [3;4;5;7;8] 40 else []), (if rnd 4 = 0 then rnulls [3;4;5;6;8] 40 else []), [], [], List.init (rnd 4) (fun _ -> act ()), [], []) in
+    Step (id, None, None, (if rnd 4 = 0 then rvars [3;4;5;7;8] 40 else []), (if rnd 4 = 0 then rnulls [3;4;5;6;8] 40 else []), [], [], List.init (rnd 4) (fun _ -> act ()), [], tmo ()) in
   { w_id = O; w_steps = List.init (if rnd 8 = 0 then 0 else 1 + rnd 3) (fun _ -> step ()); w_ins = rvars [1;3;4;5;8] 70; w_outs = rnulls [1;3;4;6;8] 60; w_setup = [] }
 let gen_workflow () : workflow =
   if !class_mode then gen_class_workflow () else begin
